@@ -243,6 +243,7 @@ def _augment_with_ancient_samples(g, sampled_demes, deme_sample_times):
     deme_sample_times = [st - t for st in deme_sample_times]
     # add frozen branches
     frozen_demes = []
+    renamed = {}
     b = demes.Builder.fromdict(g_new.asdict())
     for ii, (sd, st) in enumerate(zip(sampled_demes, deme_sample_times)):
         if st > 0 or t > 0:
@@ -257,13 +258,17 @@ def _augment_with_ancient_samples(g, sampled_demes, deme_sample_times):
                     sd_frozen,
                     start_time=st,
                     epochs=[dict(end_time=0, start_size=1)],
-                    ancestors=[sd],
+                    ancestors=[renamed.get(sd, sd)],
                 )
             elif t > 0:
                 # change the name of the sampled branch, as we have all ancient samples
+                renamed[sd] = sd_frozen
                 for ii, d in enumerate(b.data["demes"]):
                     if d["name"] == sd:
                         b.data["demes"][ii]["name"] = sd_frozen
+                    # descendants must refer to the new name
+                    if sd in d.get("ancestors", []):
+                        d["ancestors"] = [sd_frozen if a == sd else a for a in d["ancestors"]]
                 # change migration and pulse demes involving this sampled deme
                 if "migrations" in b.data.keys():
                     for ii, m in enumerate(b.data["migrations"]):
